@@ -150,6 +150,7 @@ func randSize(r gen.R) (int, int) {
 type state struct {
 	w      *harness.W
 	sess   *vxh.Session
+	vx     *vaxis.Vaxis
 	shadow *vxh.Shadow
 	cur    struct {
 		visible  bool
@@ -250,7 +251,7 @@ func genFrame(r gen.R, cols, rows int, m widthtab.Method, allowResize bool) fram
 }
 
 func (st *state) apply(o op) {
-	win := st.sess.Vx.Window()
+	win := st.vx.Window()
 	switch o.Op {
 	case "setcell":
 		win.SetCell(o.Col, o.Row, o.Cell.ToVaxis())
@@ -282,10 +283,10 @@ func (st *state) apply(o op) {
 			col += w
 		}
 	case "showcursor":
-		st.sess.Vx.ShowCursor(o.Col, o.Row, vaxis.CursorStyle(o.Shape))
+		st.vx.ShowCursor(o.Col, o.Row, vaxis.CursorStyle(o.Shape))
 		st.cur.visible, st.cur.col, st.cur.row, st.cur.shape = true, o.Col, o.Row, o.Shape
 	case "hidecursor":
-		st.sess.Vx.HideCursor()
+		st.vx.HideCursor()
 		st.cur.visible = false
 	}
 }
@@ -334,6 +335,7 @@ func runSession(w *harness.W, r gen.R, replay *sessionCase) {
 		return
 	}
 	st.sess = sess
+	st.vx = sess.Vx
 	if _, ok := sess.Sync(); !ok {
 		// the input loop stopped consuming during start-up: that is C03/C10
 		// territory (reply racing a query timeout); nothing to compare here
@@ -655,4 +657,44 @@ func (c check) Replay(w *harness.W, raw json.RawMessage) {
 		return
 	}
 	fmt.Println("pair cases are replayed by re-running the pairs batch")
+}
+
+// ---------------------------------------------------------------------------
+// exported for C12 (same frame generator and shadow bookkeeping)
+
+// Frame and Op are the generated frame and operation types.
+type (
+	Frame = frame
+	Op    = op
+)
+
+// GenFrame generates one frame for a cols x rows screen.
+func GenFrame(r gen.R, cols, rows int, m widthtab.Method, allowResize bool) Frame {
+	return genFrame(r, cols, rows, m, allowResize)
+}
+
+// Applier applies generated ops to a Vaxis and keeps the shadow record.
+type Applier struct{ st state }
+
+// NewApplier creates an applier for vx.
+func NewApplier(vx *vaxis.Vaxis, sh *vxh.Shadow, m widthtab.Method) *Applier {
+	a := &Applier{}
+	a.st.vx = vx
+	a.st.shadow = sh
+	a.st.method = m
+	return a
+}
+
+// Apply performs the op on the Vaxis and on the shadow.
+func (a *Applier) Apply(o Op) { a.st.apply(o) }
+
+// Shadow returns the current shadow.
+func (a *Applier) Shadow() *vxh.Shadow { return a.st.shadow }
+
+// SetShadow replaces the shadow (after a resize).
+func (a *Applier) SetShadow(sh *vxh.Shadow) { a.st.shadow = sh }
+
+// Cursor returns the last cursor request.
+func (a *Applier) Cursor() (visible bool, col, row, shape int) {
+	return a.st.cur.visible, a.st.cur.col, a.st.cur.row, a.st.cur.shape
 }
